@@ -96,7 +96,20 @@ pub fn run_c11(w: &mut W) {
         let long = rng.chance(1, 40);
         let n = if long { 20 + rng.usize(60) } else { 1 + rng.usize(max_exh) };
         let mut pkts: Vec<Pkt> = vec![];
+        let minimal = !long && rng.chance(1, 20);
+        let n = if minimal { 6 + rng.usize(10) } else { n };
         for _ in 0..n {
+            if minimal {
+                // header-only packets, mostly 16-byte IPFIX messages: as many packets per byte as a
+                // buffer can hold
+                let p = match rng.below(6) {
+                    0 => Pkt::Fixed(fixed_pkt(&mut rng, 5, 0)),
+                    1 => Pkt::V9(V9Pkt { count: 0, sys_up_time: rng.b32(), unix_secs: rng.b32(), seq: rng.b32(), source_id: rng.b32(), flowsets: vec![] }),
+                    _ => Pkt::Ipfix(IpfixMsg { export_time: rng.b32(), seq: rng.b32(), domain: rng.b32(), sets: vec![] }),
+                };
+                pkts.push(p);
+                continue;
+            }
             // retransmissions: an exporter may send the very same datagram again
             if !pkts.is_empty() && rng.chance(1, 6) {
                 let prev = pkts[pkts.len() - 1].clone();
@@ -174,6 +187,9 @@ pub fn run_c11(w: &mut W) {
             m
         };
         w.rep.count("sequences", 1);
+        if minimal {
+            w.rep.count("sequences_of_header_only_packets", 1);
+        }
         w.rep.count(&format!("sequence_len.{}", n.min(9)), 1);
         if n <= max_exh {
             w.rep.count("sequences_with_all_partitions", 1);
@@ -643,6 +659,13 @@ pub fn run_c14(w: &mut W) {
             seq_packet(&mut rng, &mut ex, &cfg, &w.pools)
         };
         let vw = victim.wire();
+        // one victim in eight is preceded, in the same buffer, by a complete verbatim copy of itself
+        // (a retransmission): the truncated copy is still a truncated packet
+        let mut before = before;
+        if !big && rng.chance(1, 8) {
+            before.push(vw.clone());
+            w.rep.count("victims_preceded_by_a_verbatim_copy", 1);
+        }
         let prefix: Vec<u8> = before.concat();
         if (!big && prefix.len() + vw.len() > 65535) || vw.len() < 2 {
             continue;
